@@ -151,7 +151,7 @@ inline void run_group(const ApiGroup& G, const BoxOpts& o, const std::function<v
     case F_VMP: {
       if (o.wide) {
         for (auto& q : std::vector<std::vector<uint64_t>>{{17, 3, 17, 3}, {3, 17, 3, 18}, {33, 2, 33, 3}, {2, 33, 3, 33}, {65, 2, 66, 2}, {2, 65, 2, 64}, {129, 2, 129, 1}, {1, 129, 1, 130},
-                                                          {257, 1, 257, 1}, {1, 257, 2, 257}, {256, 3, 255, 3}, {3, 256, 3, 255}, {128, 2, 300, 2}, {2, 128, 2, 300}}) {
+                                                          {257, 1, 257, 1}, {1, 257, 2, 257}, {256, 3, 255, 3}, {3, 256, 3, 255}, {128, 2, 300, 2}, {2, 128, 2, 300}, {513, 3, 513, 3}, {600, 3, 600, 3}, {1025, 1, 1025, 1}, {1100, 4, 1100, 3}, {3, 513, 3, 513}, {1, 1025, 1, 1025}, {512, 3, 512, 3}, {2049, 2, 2049, 1}}) {
           VmpShape s; s.N = N; s.nrows = q[0]; s.ncols = q[1]; s.as = q[2]; s.rs = q[3]; s.asl = N + 3; s.variant = G.sub; ApiCase c = gen_vmp(mod, s, cfg); fn(c);
         }
         break;
